@@ -532,6 +532,18 @@ func (e *Env) call(x *ECall) SVal {
 			e.g.decls = append(e.g.decls, "(declare-fun be_val ((Array Int Int) Int Int) Int)")
 		}
 		return iv(app(SInt, "be_val", e.g.arr(e.cur, cellKey(v.Ty.Elem), SInt), v.T, v.Len))
+	case "now":
+		// now(p): the current value of a parameter that the code reassigns (in ghost assertions at call sites and in loop
+		// clauses; the plain name is the value at entry)
+		need(1)
+		id, ok := args[0].(*EIdent)
+		if !ok {
+			e.fail("now() needs a parameter name")
+		}
+		if v, ok := e.vars["@now:"+id.Name]; ok {
+			return v
+		}
+		return e.ident(id.Name)
 	case "bytes":
 		// bytes(s): the bytes of a string as a (virtual) byte slice, for len(), indexing and the segment predicates
 		need(1)
@@ -795,7 +807,14 @@ func (e *Env) call(x *ECall) SVal {
 			e.g.numeralTheory()
 		case "uf_hasprefix":
 			// for a literal prefix the uninterpreted function has its meaning: length and bytes
-			if lit, ok := args[1].(*EStr); ok && len(args) == 2 && !e.g.declared["hasprefix-def:"+ts[0].S+":"+lit.S] {
+			lit, ok := &EStr{}, false
+			if len(args) == 2 && isLitTerm(ts[1]) {
+				var code int64
+				if _, err := fmt.Sscan(ts[1].S, &code); err == nil {
+					lit.S, ok = e.g.W.strOfCode(code)
+				}
+			}
+			if ok && len(lit.S) <= 32 && !e.g.declared["hasprefix-def:"+ts[0].S+":"+lit.S] {
 				e.g.declared["hasprefix-def:"+ts[0].S+":"+lit.S] = true
 				if !e.g.declared[fname] {
 					e.g.declared[fname] = true
